@@ -16,8 +16,13 @@ class FlipperAltChar(SimpleCommand):
     description = desc
 
     def verify_arg(self, arg: Line) -> str | None:
+        code = arg.content.strip()
         return (
             None
-            if arg.content.strip().isdigit() and len(arg.content.strip()) <= 4
+            if code.isascii() and code.isdigit() and len(code) <= 4
             else "Argument must be a number, and 4 digits or less."
         )
+
+    def format_arg(self, arg: Line) -> Line:
+        arg.update(arg.content.strip())
+        return arg
